@@ -1549,3 +1549,27 @@ Qed.
 Theorem dep3_set_upstream_bug_spec p b : count_key k_Bug p <= 1 ->
   upstream_bugs (l_set p k_Bug b) = [b] /\ l_remove (l_set p k_Bug b) k_Bug = l_remove p k_Bug.
 Proof. intros H. rewrite upstream_bugs_get_all, get_all_l_set_single by exact H. split; [reflexivity|apply l_set_others]. Qed.
+
+(* a setter through a paragraph handle touches nothing outside that paragraph node *)
+Theorem setter_document_frame : forall c s arg v t n,
+  (exists A P B, children t = A ++ P :: B /\ is_paragraph P = true /\ length (filter is_paragraph A) = n /\
+     forall cs', setter c TI s arg v (children P) = Ok cs' ->
+       on_para t n (fun _ => cs') = Node ROOT (A ++ Node PARAGRAPH cs' :: B)) \/
+  (length (filter is_paragraph (children t)) <= n).
+Proof.
+  intros c s arg v t n.
+  destruct (on_para_frame t n (fun cs => cs)) as [(A & P & B & E1 & E2 & E3 & _)|[E1 _]]; [left|right; exact E1].
+  exists A, P, B. split; [exact E1|]. split; [exact E2|]. split; [exact E3|]. intros cs' _.
+  destruct (on_para_frame t n (fun _ => cs')) as [(A' & P' & B' & F1 & F2 & F3 & F4)|[F1 _]].
+  - rewrite F4. rewrite E1 in F1.
+    assert (A' = A /\ P' = P /\ B' = B).
+    { clear - F1 F2 F3 E2 E3. subst n. revert A' F1 F3. induction A as [|x A IH]; intros A' F1 F3.
+      - destruct A' as [|y A'']; [cbn in F1; inversion F1; repeat split|].
+        cbn in F1. inversion F1; subst. cbn [filter] in F3. rewrite E2 in F3. cbn in F3. discriminate.
+      - destruct A' as [|y A'']; cbn in F1; inversion F1; subst.
+        + cbn [filter] in F3. rewrite F2 in F3. cbn in F3. discriminate.
+        + cbn [filter] in F3. destruct (is_paragraph y); cbn [length] in F3;
+            (destruct (IH A'' H1) as (-> & -> & ->); [lia|repeat split]). }
+    destruct H as (-> & -> & ->). reflexivity.
+  - rewrite E1, filter_app in F1. cbn [filter] in F1. rewrite E2, app_length in F1. cbn [length] in F1. lia.
+Qed.
